@@ -134,6 +134,11 @@ FEATURES = {
         ["f%d" % i for i in range(33)])}, body="A", resp="A"),
     "format-vocabulary-opt": featgen.wrap({"A": OBJ({("g%d" % i): {"type": ["string", "null"], "format": fmt, "pattern": "^.+$"} for i, fmt in enumerate(
         ["date-time", "uuid", "datetime", "date_time", "DateTime", "timestamp", "int64", "uuid4", "date", "time"])})}, body="A", resp="A"),
+    # operation ids with a common affix: after trimming, the server handlers are called like HTTP verbs (`get`, `delete`)
+    "verb-named-handlers": {"openapi": "3.1.0", "info": {"title": "t", "version": "1"}, "components": {"schemas": {"Thing": OBJ({"x": {"type": "string"}})}},
+                            "paths": {"/things": {"get": {"operationId": "getThing", "responses": {"200": {"description": "ok", "content": {"application/json": {"schema": S("Thing")}}}}},
+                                                  "post": {"operationId": "postThing", "requestBody": {"required": True, "content": {"application/json": {"schema": S("Thing")}}}, "responses": {"204": {"description": "ok"}}}},
+                                      "/things/{id}": {"delete": {"operationId": "deleteThing", "parameters": [{"name": "id", "in": "path", "required": True, "schema": {"type": "string"}}], "responses": {"204": {"description": "ok"}}}}}},
     # helper constructors of unions / Known-Other enums whose member names differ only in case or separators
     "helper-name-collisions": featgen.wrap({"Region": {"anyOf": [{"type": "string", "enum": ["eu-west", "EU-WEST", "eu_west", "us"]}, {"type": "string"}]},
                                             "Kind": {"anyOf": [{"type": "string", "enum": ["a-b", "a_b", "A B"]}, {"type": "string"}]},
